@@ -1314,6 +1314,8 @@ def compose_scope(res, pid, rng, tier):
                 text += 'description "uplink to Net internet";\n set snmp description "core ethernet";\n'   # a reserved keyword next to enclosing text at the edge of the line
                 for rw in (base.reserved or []):
                     text += "snmp-server community %s ro\nusername bob password %s\n" % (rw, rw)
+                # secrets that are the words of netconan's own place holders
+                text += "username scrub1 password 0 netconan\nsnmp-server community SCRUBBED ro\nusername scrub2 password 0 netconanRemoved\n"
                 try:
                     multi = anon_text(base, text)
                 except Exception as e:  # noqa
@@ -1400,9 +1402,14 @@ def compose_scope(res, pid, rng, tier):
         table = "".join("! %-30s %-30s %s\n" % ("col%d" % i_, "value   %d" % i_, "x" * 12) for i_ in range(14))
         files5 = {"long.cfg": "password hunter2 " + "x" * 65503 + " 11.22.33.44 end\nrouter bgp 65001\n",
                   "nul.cfg": table + "! padding" + " " * (1030 - len(table) - 9) + "\x00\nusername bob password 0 hunter2abc\nrouter bgp 65001\n neighbor 11.22.33.44 remote-as 65001\n",
-                  "plain.cfg": "hostname acme-gw\nusername bob password 0 hunter2abc\n neighbor 11.22.33.45 remote-as 65001\n"}
+                  "plain.cfg": "hostname acme-gw\nusername bob password 0 hunter2abc\n neighbor 11.22.33.45 remote-as 65001\n",
+                  # a file with many distinct addresses (the address tables grow past 2^16 entries), and a file in a sub directory (walked after
+                  # the files of the top directory) with secrets: the numbering of the secret place holders runs on across the files
+                  "many.cfg": "username m password 0 manySecretA1\n" + "".join(" ipv6 address 2001:db8:%x:%x::%x/64\n" % (7 * i_ + 1, 13 * i_ + 5, i_ + 1) for i_ in range(900)),
+                  "z/late.cfg": "username l password 0 lateSecretB2\nusername m password 0 manySecretA1\nusername k password 0 hunter2abc\n"}
         os.makedirs(os.path.join(d5, "in"))
         for nm_, tx_ in files5.items():
+            os.makedirs(os.path.dirname(os.path.join(d5, "in", nm_)), exist_ok=True)
             open(os.path.join(d5, "in", nm_), "w", newline="").write(tx_)
         kw_all = dict(salt="cmpf", sensitive_words=["acme"], as_numbers=["65001"])
         with fa.LogCap():
@@ -1440,6 +1447,20 @@ def compose_scope(res, pid, rng, tier):
     elif both[0] != st2[0]:
         fails.append({"kind": "the multi-feature run differs from the single-feature steps applied one after another (each step in a process of its own)",
                       "sensitive_words": ["acme", tk], "as_numbers": [tk, "64998"], "salt": "cmp", "text": t_, "combined": both[0], "chained": st2[0]})
+    # secrets and words, every step in a process of its own; the secrets are the words of netconan's own place holders
+    t2_ = "username scrub1 password 0 netconan\nsnmp-server community SCRUBBED ro\nhostname acme-gw\nusername bob password 0 Removed\n"
+    kw_p = dict(anon_pwd=True, anon_ip=False, salt="cmp")
+    kw_pw = dict(anon_pwd=True, anon_ip=False, salt="cmp", sensitive_words=["acme"])
+    kw_w2 = dict(anon_pwd=False, anon_ip=False, salt="cmp", sensitive_words=["acme"])
+    both, e0 = run_in_process([{"kwargs": kw_pw, "text": t2_, "before": []}], 0)
+    st1, e1 = run_in_process([{"kwargs": kw_p, "text": t2_, "before": []}], 0)
+    st2, e2 = run_in_process([{"kwargs": kw_w2, "text": st1[0], "before": []}], 0) if st1 else (None, e1)
+    res.evaluations += 3
+    if both is None or st2 is None:
+        fails.append({"kind": "anonymize_io raised", "detail": "fresh-process composition run failed", "exc": str(e0 or e1 or e2)[:300]})
+    elif both[0] != st2[0]:
+        fails.append({"kind": "the multi-feature run differs from the single-feature steps applied one after another (each step in a process of its own)",
+                      "features": "passwords and sensitive words", "sensitive_words": ["acme"], "salt": "cmp", "text": t2_, "combined": both[0], "chained": st2[0]})
     return [], fails
 
 
